@@ -76,7 +76,13 @@ func (fr *Frame) call(t *ssa.Call) {
 func (fr *Frame) evalArgs(args []ssa.Value) []Val {
 	var out []Val
 	for _, a := range args {
-		out = append(out, fr.val(a))
+		v := fr.val(a)
+		if v.Cell != nil {
+			if _, isPtr := fr.vc.rt(a.Type()).Underlying().(*types.Pointer); isPtr {
+				v = fr.materialize(v, a.Type())
+			}
+		}
+		out = append(out, v)
 	}
 	return out
 }
@@ -318,7 +324,7 @@ func (vc *VC) ghostAccess(d *SpecDecl, args []Val) Val {
 
 // evalOld re-evaluates the expression DAG of v in the old state.
 func (fr *Frame) evalOld(v ssa.Value) Val {
-	sh := &Frame{vc: fr.vc, fn: fr.fn, vals: map[ssa.Value]Val{}, st: fr.old, live: tTrue, old: fr.old, bindings: fr.bindings, mapIter: map[ssa.Value]*mapIterState{}}
+	sh := &Frame{vc: fr.vc, fn: fr.fn, vals: map[ssa.Value]Val{}, st: fr.old, live: tTrue, old: fr.old, bindings: fr.bindings, mapIter: map[ssa.Value]*mapIterState{}, cellOf: map[*ssa.Alloc]int{}}
 	var ev func(x ssa.Value) Val
 	ev = func(x ssa.Value) Val {
 		if r, ok := sh.vals[x]; ok {
@@ -352,6 +358,9 @@ func (fr *Frame) evalOld(v ssa.Value) Val {
 				return fr.val(x)
 			}
 			sh.st = fr.old.clone()
+			for k, v := range fr.st.cells {
+				sh.st.cells[k] = v // locals are not part of the old heap: use their current values
+			}
 			fr.vc.spec++
 			sh.execInstr(i)
 			fr.vc.spec--
@@ -1024,7 +1033,10 @@ func (fr *Frame) builtin(t *ssa.Call, b *ssa.Builtin) {
 	case "clear":
 		if mt, ok := vc.rt(args[0].Type()).Underlying().(*types.Map); ok {
 			m := fr.term(args[0])
-			has, _, ln, ks, _ := vc.mapHeaps(mt)
+			has, val, ln, ks, vsrt := vc.mapHeaps(mt)
+			if fr.val(args[0]).Ghost {
+				vc.heapWrite(fr.st, val, m, vc.zeroOfSort(arraySort(ks, vsrt)))
+			}
 			vc.heapWrite(fr.st, has, m, Term{fmt.Sprintf("((as const (Array %s Bool)) false)", ks), arraySort(ks, SBool)})
 			vc.heapWrite(fr.st, ln, m, bvLit(0, 64))
 			fr.vals[t] = Val{}
@@ -1073,7 +1085,8 @@ func (fr *Frame) appendBuiltin(t *ssa.Call) {
 			cnt = k
 		}
 	}
-	// copy phase (only in the reallocation case)
+	// copy phase (only in the reallocation case): the new heap is defined pointwise from the old
+	// one, with a pattern that matches every read of the new heap.
 	for _, h := range sortedKeys(hs) {
 		oldH := vc.heapGet(fr.st, h)
 		_, vs := arrayParts(oldH.Sort)
@@ -1081,9 +1094,8 @@ func (fr *Frame) appendBuiltin(t *ssa.Call) {
 		nh := vc.freshConst(h, oldH.Sort)
 		vc.rootBound[nh.S] = fr.st.nalloc
 		vc.asserts = append(vc.asserts,
-			fmt.Sprintf("(forall ((q Ptr)) (! (=> (not (= (alloc q) (alloc %s))) (= (select %s q) (select %s q))) :pattern ((select %s q))))", fresh.S, nh.S, oldH.S, nh.S),
-			fmt.Sprintf("(forall ((i (_ BitVec 64))) (! (=> (bvult i %s) (= (select %s (elemptr %s i)) (select %s (elemptr %s i)))) :pattern ((select %s (elemptr %s i)))))", slen(s).S, nh.S, fresh.S, oldH.S, sptr(s).S, nh.S, fresh.S),
-			fmt.Sprintf("(forall ((i (_ BitVec 64))) (! (=> (bvuge i %s) (= (select %s (elemptr %s i)) %s)) :pattern ((select %s (elemptr %s i)))))", slen(s).S, nh.S, fresh.S, vc.zeroOfSort(vs).S, nh.S, fresh.S))
+			fmt.Sprintf("(forall ((q Ptr)) (! (= (select %[1]s q) (ite (and (= (alloc q) (alloc %[2]s)) ((_ is PE) (path q)) (= (pe_p (path q)) PNil)) (ite (bvult (pe_i (path q)) %[3]s) (select %[4]s (elemptr %[5]s (pe_i (path q)))) %[6]s) (select %[4]s q))) :pattern ((select %[1]s q))))",
+				nh.S, fresh.S, slen(s).S, oldH.S, sptr(s).S, vc.zeroOfSort(vs).S))
 		fr.st.heaps[h] = vc.name(h, ite(inplace, oldH, nh))
 		fr.st.roots[h] = append(append([]string{}, roots...), nh.S)
 	}
@@ -1097,8 +1109,8 @@ func (fr *Frame) appendBuiltin(t *ssa.Call) {
 			oldH := vc.heapGet(fr.st, h)
 			nh := vc.havocHeap(fr.st, h)
 			vc.asserts = append(vc.asserts,
-				fmt.Sprintf("(forall ((q Ptr)) (! (=> (not (inrange q %s %s %s)) (= (select %s q) (select %s q))) :pattern ((select %s q))))", rptr.S, slen(s).S, newLen.S, nh.S, oldH.S, nh.S),
-				fmt.Sprintf("(forall ((i (_ BitVec 64))) (! (=> (bvult i %s) (= (select %s (elemptr %s (bvadd %s i))) (select %s (elemptr %s i)))) :pattern ((select %s (elemptr %s (bvadd %s i))))))", n.S, nh.S, rptr.S, slen(s).S, oldH.S, sptr(add).S, nh.S, rptr.S, slen(s).S))
+				fmt.Sprintf("(forall ((q Ptr)) (! (= (select %[1]s q) (ite (inrange q %[2]s %[3]s %[4]s) (select %[5]s (elemptr %[6]s (bvsub (bvsub (pe_i (path q)) (pe_i (path %[2]s))) %[3]s))) (select %[5]s q))) :pattern ((select %[1]s q))))",
+					nh.S, rptr.S, slen(s).S, newLen.S, oldH.S, sptr(add).S))
 		}
 	}
 	fr.vals[t] = Val{T: vc.name(t.Name(), mkSlice(rptr, newLen, rcap))}
@@ -1136,8 +1148,8 @@ func (fr *Frame) copyBuiltin(t *ssa.Call) {
 		oldH := vc.heapGet(fr.st, h)
 		nh := vc.havocHeap(fr.st, h)
 		vc.asserts = append(vc.asserts,
-			fmt.Sprintf("(forall ((q Ptr)) (! (=> (not (inrange q %s (_ bv0 64) %s)) (= (select %s q) (select %s q))) :pattern ((select %s q))))", sptr(dst).S, n.S, nh.S, oldH.S, nh.S),
-			fmt.Sprintf("(forall ((i (_ BitVec 64))) (! (=> (bvult i %s) (= (select %s (elemptr %s i)) (select %s (elemptr %s i)))) :pattern ((select %s (elemptr %s i)))))", n.S, nh.S, sptr(dst).S, oldH.S, sptr(src).S, nh.S, sptr(dst).S))
+			fmt.Sprintf("(forall ((q Ptr)) (! (= (select %[1]s q) (ite (inrange q %[2]s (_ bv0 64) %[3]s) (select %[4]s (elemptr %[5]s (bvsub (pe_i (path q)) (pe_i (path %[2]s))))) (select %[4]s q))) :pattern ((select %[1]s q))))",
+				nh.S, sptr(dst).S, n.S, oldH.S, sptr(src).S))
 	}
 	_ = bv
 	fr.set(t, n)
